@@ -193,9 +193,6 @@ func main() {
 	c := vlib.Start("C05")
 	var states, trans int64
 	samples := []any{}
-	configsSeen := map[string]*[256]bool{"uniform": {}, "octree": {}}
-	var pairSeen [2][3]map[int]bool
-	_ = pairSeen
 
 	uni := func(n int) func() render.Render3 {
 		return func() render.Render3 { return render.NewMarchingCubesUniform(n) }
@@ -292,9 +289,6 @@ func main() {
 			}
 			return v
 		}, "signs x special-magnitudes")
-		for i := 0; i < 256; i++ {
-			configsSeen[b.rname][i] = true // every configuration of the free cell is enumerated above (guard below re-derives it)
-		}
 		samples = append(samples, map[string]any{"block": b.name, "family": "ternary^8 and 256 signs x magnitude patterns", "patterns": len(pats), "example_values": []float64{-1, 1e-13, 1, 1, -0.25, 1, 1, 1}, "lattice_corners": fmt.Sprint(b.lat.NC()), "free": b.free})
 	}
 	// ---- 2. face-adjacent pairs: all 4096 sign assignments (+-1); thorough: {-1,0,1}^12
